@@ -400,8 +400,13 @@ func findLoopAny(body *ast.BlockStmt, n int) (*loopCtx, []ast.Stmt) {
 				if s.Else != nil {
 					return walk([]ast.Stmt{s.Else})
 				}
+			case *ast.ForStmt: // a loop nested in another loop: one iteration of the inner loop, for an
+				// arbitrary iteration of the outer one (whose variables are not declared: use hints)
+				return walk(s.Body.List)
+			case *ast.RangeStmt:
+				return walk(s.Body.List)
 			}
-			fail("LoopAny: the loop is nested in a statement other than if / else / block")
+			fail("LoopAny: the loop is nested in a statement other than if / else / block / for")
 		}
 		return false
 	}
